@@ -34,6 +34,13 @@ def api_family(rp, only=None, extra_names=()):
     progs += [
         ("positional-and-keyword", "def f(x: Int, y: Int := 3) -> Int => x - y", "print(f(10), f(10, 1), f(y=1, x=5))", "7 9 4"),
         ("vararg", "def f(vararg xs: Int) -> Int => 3", "print(f(1, 2, 3))", "3"),
+        ("vararg-class-argument-and-method", "class Bag(vararg items: Int)\n    def count: Int := 0\n    def add(self, first: Int, vararg more: Int) -> Int => first",
+         "b = Bag(1, 2, 3); print(b.count, b.add(7, 8, 9))", "0 7"),
+        ("abstract-type-parent-without-body", "type Shape\n    def area(self) -> Int\ntype Solid: Shape\nclass Cube(def side: Int): Solid\n    def area(self) -> Int => self.side * self.side",
+         "print([b.__name__ for b in Solid.__bases__], issubclass(Cube, Shape), Cube(3).area())", "['Shape'] True 9"),
+        ("abstract-type-parent-with-body", "type Shape\n    def area(self) -> Int\ntype Solid: Shape\n    def volume(self) -> Int\nclass Cube(def side: Int): Solid\n    def area(self) -> Int => self.side * self.side\n    def volume(self) -> Int => self.side",
+         "print([b.__name__ for b in Solid.__bases__], issubclass(Cube, Shape), Cube(3).volume())", "['Shape'] True 3"),
+        ("abstract-type-parent-last-line", "type Shape\n    def area(self) -> Int\ntype Solid: Shape", "print([b.__name__ for b in Solid.__bases__])", "['Shape']"),
         ("method-parameters", "class A\n    def m(self, p: Int, q: Int := 2) -> Int => p - q", "print(A().m(5), A().m(q=1, p=9))", "3 8"),
         ("constructor-class-arguments", "class P(def x: Int, def y: Int := 7)", "p = P(1); q = P(y=2, x=3); print(p.x, p.y, q.x, q.y)", "1 7 3 2"),
         ("constructor-user-init", "class B\n    def v: Int := 0\n    def __init__(self, a: Int, b: Int) => self.v := a - b", "print(B(5, 2).v, B(b=1, a=9).v)", "3 8"),
@@ -383,6 +390,101 @@ def ob_constructor_assembly(run, mir, rp):
         ob.inconclusive(str(e))
 
 
+def ob_type_parent(run, mir, rp):
+    ob = run.ob("type-definition-keeps-parent", "E2", "parse_type_def and the closure it hands to peek: every TypeDef / TypeAlias node built - with a body, "
+                "without one, at the end of input, conditional - carries the type that was parsed and the parent that was parsed behind the `:` "
+                "(the inheritance list of an abstract type starts here; checker and generator only see this node)",
+                ["parse_type_def", "parse_type_def::{closure#0}"])
+    try:
+        import ckern
+        from e2 import sym_option
+        cl = [f for n, f in mir.fns.items() if re.match(r"^(.*::)?parse_type_def::\{closure#0\}$", n)]
+        if len(cl) != 1 or len(cl[0].args) != 3:
+            raise Unsupported(f"parse_type_def closure: {len(cl)} candidates")
+        fnc = cl[0]
+        order = sorted((int(m.group(1)), name) for name, place in fnc.debug.items() for m in [re.search(r"\(\*_1\)\.(\d+)", str(place))] if m)
+        order = [n for _, n in order]
+        if sorted(order) != ["isa", "start", "ty"]:
+            raise Unsupported(f"closure captures changed: {order}")
+        ex = Exec(mir, max_paths=5000)
+        st = State()
+        parent, _ = ckern.mk_ast("parent", opq("parent.node", "Node"))
+        isa, isa_some = sym_option("isa", parent, "Option<Box<AST>>")
+        ty, _ = ckern.mk_ast("ty", opq("ty.node", "Node"))
+        capv = {"isa": Ref(ex.new_cell(st, isa)), "start": Ref(ex.new_cell(st, opq("start", "Position"))), "ty": Ref(ex.new_cell(st, ty))}
+        env = Ref(ex.new_cell(st, Agg("closure", fnc.args[0][1].lstrip("&").strip(), [capv[n] for n in order])))
+        ends = e2.run_kernel(run, ex, fnc, [env, Ref(ex.new_cell(st, opq("it", "LexIterator"))), Ref(ex.new_cell(st, opq("lex", "Lex")))], st)
+        claims, built = [], set()
+
+        def node_claims(p, exx, isa_v, ty_v, some):
+            s_ = p.state
+            out = []
+            for a in calls(p, "AST::new"):
+                n = a["args"][1]
+                n = exx.read_ref(s_, n) if isinstance(n, Ref) else n
+                if not isinstance(n, Agg) or n.variant not in ("TypeDef", "TypeAlias"):
+                    out.append(z3.BoolVal(False))
+                    continue
+                built.add(n.variant + ("" if n.variant == "TypeAlias" else ("+body" if getattr(n.fields[list(n.names).index("body")], "variant", "") == "Some" else "")))
+                f = lambda k: n.fields[list(n.names).index(k)]
+                out.append(exx.to_val(s_, f("ty")) == exx.to_val(s_, ty_v))
+                if n.variant == "TypeDef":
+                    out.append(exx.to_val(s_, f("isa")) == exx.to_val(s_, isa_v))
+                else:
+                    out.append(z3.And(some, exx.to_val(s_, f("isa")) == exx.to_val(s_, exx.project(s_, isa_v, ("v", "Some")).fields[0])))
+            return out
+        n_ok = 0
+        for p in ends:
+            if result_kind(p) != "Ok":
+                continue
+            n_ok += 1
+            cl_ = node_claims(p, ex, isa, ty, isa_some)
+            claims.append(z3.Implies(conj(p.cond), conj(cl_ + [z3.BoolVal(len(cl_) >= 2)])))
+        if n_ok < 3:
+            raise Unsupported(f"closure: {n_ok} Ok paths")
+        # the function itself: what it parsed is what the closure captures and what the end-of-input default carries
+        fn = e2.find1(mir, file="src/parse/class.rs", name="parse_type_def")
+        st2 = State()
+        ends2 = e2.run_kernel(run, ex, fn, [Ref(ex.new_cell(st2, opq("it", "LexIterator")))], st2)
+        n_peek = 0
+        for p in ends2:
+            pk = calls(p, "LexIterator::peek")
+            if not pk:
+                continue
+            n_peek += 1
+            s_ = p.state
+            pi = calls(p, "LexIterator::parse_if")
+            pa = calls(p, "LexIterator::parse")
+            if len(pi) != 1 or len(pa) != 1:
+                claims.append(z3.Not(conj(p.cond)))
+                continue
+            isa2 = ex.project(s_, ex.project(s_, pi[0]["ret"], ("v", "Ok")), ("f", 0), "Option<Box<AST>>")
+            ty2 = ex.project(s_, ex.project(s_, pa[0]["ret"], ("v", "Ok")), ("f", 0), "Box<AST>")
+            cl_ = node_claims(p, ex, isa2, ty2, z3.BoolVal(True))
+            clo = pk[0]["args"][1]
+            clo = ex.read_ref(s_, clo) if isinstance(clo, Ref) else clo
+            caps_ok = z3.BoolVal(False)
+            if isinstance(clo, Agg) and clo.ty == "closure" and len(clo.fields) == 3:
+                rd = lambda v: ex.to_val(s_, ex.read_ref(s_, v) if isinstance(v, Ref) else v)
+                caps_ok = z3.And(rd(clo.fields[order.index("isa")]) == ex.to_val(s_, isa2), rd(clo.fields[order.index("ty")]) == ex.to_val(s_, ty2))
+            tok = pi[0]["args"][1]
+            tok = ex.read_ref(s_, tok) if isinstance(tok, Ref) else tok
+            claims.append(z3.Implies(conj(p.cond), conj(cl_ + [caps_ok, z3.BoolVal(len(cl_) >= 2 and getattr(tok, "variant", None) == "DoublePoint")])))
+        if not n_peek:
+            raise Unsupported("parse_type_def never reaches peek")
+        if built != {"TypeDef", "TypeDef+body", "TypeAlias"}:
+            raise Unsupported(f"node kinds built: {sorted(built)}")
+        e2.prove_each(run, ob, ex, [], claims, {"a parent was parsed": isa_some}, fam_replay(rp, "type-parent", only=["abstract-type-"]))
+        if ob.status == "discharged":
+            n, bad = api_family(rp, ["abstract-type-"])
+            run.validated += n
+            if bad:
+                ob.status = "pending"
+                ob.inconclusive(f"abstract-type programs disagree although the kernel is as specified: {bad[:2]}")
+    except Unsupported as e:
+        ob.inconclusive(str(e))
+
+
 def run(run):
     mir = e2.load_mir(run)
     rp = common.Replay()
@@ -404,6 +506,7 @@ def run(run):
     ob_init_arguments(run, mir, rp)
     ob_class_closures(run, mir, rp)
     ob_constructor_assembly(run, mir, rp)
+    ob_type_parent(run, mir, rp)
     if run.clean():
         n, bad = api_family(rp)
         run.validated += n
